@@ -328,6 +328,7 @@ package raft
 //@   ensures [I11] r.operationManager != nil && r.operationManager.leaderLease != nil && r.operationManager.pendingReplicated != nil && r.operationManager.pendingReadOnly != nil && (forall o *Operation :: o in r.operationManager.pendingReadOnly ==> o != nil)
 //@   ensures [manager] r.state == old(r.state) ==> r.operationManager == old(r.operationManager)
 //@   ensures [tables-empty-on-stepdown] old(r.state) == Leader && r.state != Leader ==> (forall k uint64 :: !(k in r.operationManager.pendingReplicated)) && (forall o *Operation :: !(o in r.operationManager.pendingReadOnly))
+//@   ensures [tables-kept] r.state == old(r.state) ==> (forall k uint64 :: (k in r.operationManager.pendingReplicated) == old(k in r.operationManager.pendingReplicated)) && (forall o *Operation :: (o in r.operationManager.pendingReadOnly) == old(o in r.operationManager.pendingReadOnly))
 //@   ensures [answered-mono] forall c int :: old(answered[c]) ==> answered[c]
 //@   ensures [clock] now >= old(now)
 //@   ensures [snapshot] r.snapshot == nil || (r.snapshot == old(r.snapshot) && sfWriter[r.snapshot] == old(sfWriter[r.snapshot]) && sfPublished[r.snapshot] == old(sfPublished[r.snapshot]))
